@@ -46,7 +46,8 @@ var c03Epoch0 = 2
 const (
 	c03SPE     = 4
 	c03SlotDur = 12 * time.Second
-	c03Delay   = 4 * time.Second // attestation delay
+	c03Delay   = 4 * time.Second        // attestation delay
+	c03Grace   = 500 * time.Millisecond // fast-track grace
 )
 
 type c03Duty struct {
@@ -121,9 +122,11 @@ type c03World struct {
 	reorgAt   int64 // instant of the first event announcing changed roots (-1: none)
 	done      bool
 	jobsAtEnd []string
-	reorgs    []c03Reorg          // head events that announced changed dependent roots
-	attestDur int64               // how long the attester stand-in takes (0: returns at once)
-	inflight  map[phase0.Slot]int // attestations being carried out by the stand-in
+	reorgs    []c03Reorg              // head events that announced changed dependent roots
+	fastTrack bool                    // the controller starts a slot's attestations early when the slot's block arrives (vouch's default)
+	evAt      map[phase0.Slot][]int64 // instants at which head events for a slot were delivered
+	attestDur int64                   // how long the attester stand-in takes (0: returns at once)
+	inflight  map[phase0.Slot]int     // attestations being carried out by the stand-in
 }
 
 func (w *c03World) now() int64 { return mc.Now() }
@@ -302,7 +305,11 @@ func c03Body(w *c03World, startAt int64, ap, pp [2]string, windowed bool) {
 	}
 	accts := &accountsTable{byIndex: byIndex}
 	ev := &eventsProvider{}
+	// fast track (vouch's default configuration): a head event for a slot starts that slot's attestations half a
+	// second later instead of at the attestation delay
+	w.fastTrack = mc.Choose(2) == 1
 	_, err = standardcontroller.New(ctx,
+		standardcontroller.WithFastTrackAttestations(w.fastTrack), standardcontroller.WithFastTrackSyncCommittees(w.fastTrack), standardcontroller.WithFastTrackGrace(c03Grace),
 		standardcontroller.WithLogLevel(zerolog.Disabled),
 		standardcontroller.WithMonitor(nullmetrics.New()),
 		standardcontroller.WithSpecProvider(&specProvider{m: spec}),
@@ -331,6 +338,10 @@ func c03Body(w *c03World, startAt int64, ap, pp [2]string, windowed bool) {
 	deliver := func(kind string, prev, cur byte) {
 		s := w.slotAt(mc.Now())
 		w.events = append(w.events, fmt.Sprintf("%s@slot%d+%ds", kind, s, (mc.Now()-w.slotStart(s))/int64(time.Second)))
+		if w.evAt == nil {
+			w.evAt = map[phase0.Slot][]int64{}
+		}
+		w.evAt[s] = append(w.evAt[s], mc.Now())
 		ev.deliver("head", &apiv1.HeadEvent{Slot: s, Block: root(byte(s)), PreviousDutyDependentRoot: root(prev), CurrentDutyDependentRoot: root(cur)})
 	}
 	mc.Sleep(int64(500 * time.Millisecond))
@@ -410,9 +421,8 @@ func c03Body(w *c03World, startAt int64, ap, pp [2]string, windowed bool) {
 	w.done = true
 }
 
-func c03Check(w *c03World, r *mc.Result) mc.Verdict {
-	v := mc.Verdict{}
-	desc := fmt.Sprintf("start=epoch%d+%.0fs attester duties v0=%s v1=%s proposer duties v0=%s v1=%s events=[%s]", c03Epoch0, float64(w.startAt)/1e9, w.attKinds[0], w.attKinds[1], w.propKinds[0], w.propKinds[1], strings.Join(w.events, " "))
+func c03Check(w *c03World, r *mc.Result) (v mc.Verdict) {
+	desc := fmt.Sprintf("start=epoch%d+%.0fs fast-track=%v attester duties v0=%s v1=%s proposer duties v0=%s v1=%s events=[%s]", c03Epoch0, float64(w.startAt)/1e9, w.fastTrack, w.attKinds[0], w.attKinds[1], w.propKinds[0], w.propKinds[1], strings.Join(w.events, " "))
 	v.Outcome = fmt.Sprintf("attests=%d proposes=%d fetches=%d/%d", len(w.attests), len(w.proposes), len(w.attF), len(w.propF))
 	v.Sample = desc + " -> " + v.Outcome
 	v.Nontrivial = w.version == 1 || w.startAt != 0
@@ -438,6 +448,12 @@ func c03Check(w *c03World, r *mc.Result) mc.Verdict {
 		fetches []c03Fetch
 		delay   int64
 	}
+	fastN := 0
+	defer func() {
+		if fastN > 0 {
+			v.Outcome += " fast-tracked"
+		}
+	}()
 	for _, j := range []judge{{"attest", w.attests, w.attF, int64(c03Delay)}, {"propose", w.proposes, w.propF, 0}} {
 		perSlot := map[phase0.Slot][]c03Call{}
 		for _, c := range j.calls {
@@ -512,7 +528,16 @@ func c03Check(w *c03World, r *mc.Result) mc.Verdict {
 				return fail(j.name+"/outside-slot", fmt.Sprintf("slot %d was handed to %s at %+.1fs relative to its start", s, j.name, float64(c.at-w.slotStart(s))/1e9))
 			}
 			fetchSlot := w.slotAt(lf.at)
-			if fetchSlot < s && c.at != jobTime {
+			fast := false
+			if w.fastTrack && j.name == "attest" {
+				for _, te := range w.evAt[s] {
+					if te+int64(c03Grace) == c.at && c.at < jobTime {
+						fast = true // started early by the head event of its own slot
+						fastN++
+					}
+				}
+			}
+			if fetchSlot < s && c.at != jobTime && !fast {
 				return fail(j.name+"/wrong-time", fmt.Sprintf("slot %d was handed to %s at slot start %+.1fs instead of %+.1fs", s, j.name, float64(c.at-w.slotStart(s))/1e9, float64(j.delay)/1e9))
 			}
 			if fetchSlot == s && nBefore == 1 && lf.at < int64(time.Second) {
@@ -651,7 +676,7 @@ func init() {
 	hx.Register(&hx.Prop{
 		ID:    "C03",
 		Title: "Every duty is scheduled once, for the right time, across restarts and reorgs",
-		Rule: "controller part: real controller + real scheduler + real chain time (4 slots per epoch) started at 4 instants of an epoch (epoch start, mid-slot, just inside the second slot, last slot) x 6 attester and 4 proposer duty-table pairs (version before / after a reorg: same, moved, dropped, with out-of-epoch duties, dense) x head-event scripts (baseline + 1..2 events, each in one of the next 4 slots, 1 s or 6 s into the slot, roots same / previous changed / current changed / both changed), run for three epochs (from epoch 2, and for two table pairs also from epoch 0) on the default schedule (simultaneous timers and events in canonical order); thorough: two further start instants (last second of a slot, last second of the epoch), and every start x table pair once more with a single event announcing changed roots in the next slot, under every schedule with one deviation during start-up and during the handling of that event (mc.SetDeviations confines the bound to those instants: three epochs of controller activity offer thousands of scheduling points); the oracle is computed from the log of the beacon node's answers: per slot at most one Attest / Propose, exactly one with exactly the obtained validators at slot start + delay when the slot was still in the future, none for withdrawn or out-of-epoch duties, nothing for the slot in progress at start-up; after an event announcing a changed previous (current) dependent root the attester duties of the epoch (the proposer duties of the epoch and the attester duties of the next) are obtained again; " +
+		Rule: "controller part: real controller + real scheduler + real chain time (4 slots per epoch) started at 4 instants of an epoch (epoch start, mid-slot, just inside the second slot, last slot) x 6 attester and 4 proposer duty-table pairs (version before / after a reorg: same, moved, dropped, with out-of-epoch duties, dense) x fast track off / on (vouch's default: a slot's head event starts its attestations 0.5 s later) x head-event scripts (baseline + 1..2 events, each in one of the next 4 slots, 1 s or 6 s into the slot, roots same / previous changed / current changed / both changed), run for three epochs (from epoch 2, and for two table pairs also from epoch 0) on the default schedule (simultaneous timers and events in canonical order); thorough: two further start instants (last second of a slot, last second of the epoch), and every start x table pair once more with a single event announcing changed roots in the next slot, under every schedule with one deviation during start-up and during the handling of that event (mc.SetDeviations confines the bound to those instants: three epochs of controller activity offer thousands of scheduling points); the oracle is computed from the log of the beacon node's answers: per slot at most one Attest / Propose, exactly one with exactly the obtained validators at slot start + delay when the slot was still in the future, none for withdrawn or out-of-epoch duties, nothing for the slot in progress at start-up; after an event announcing a changed previous (current) dependent root the attester duties of the epoch (the proposer duties of the epoch and the attester duties of the next) are obtained again; " +
 			"chain-time part: genesis {now, 1 s ago, 1000 h ago, in 30 s} x slot duration {1,2,6,12 s} x slots per epoch {1,2,4,32} x 40 (thorough 130) slots x 4 instants per slot for the conversion identities; sync part: the sync-period window units of C15 (start instants x period length x fork epoch x membership); non-trivial = a reorg happened or vouch started inside an epoch",
 		Assumptions: []string{
 			"vouch keeps no persistent state, so a restart is a start instant",
